@@ -91,8 +91,6 @@ func otherValue(which string) interface{} {
 		return marshaler{"x<y"}
 	case "chan":
 		return make(chan int)
-	case "int32":
-		return int32(65)
 	case "nilptr":
 		return (*plainStruct)(nil)
 	case "complex":
@@ -187,8 +185,31 @@ func linesWidths(s string) []interface{} {
 	return out
 }
 
+// otherCaps declares, for the fixed pool of "other" items, which of the text-form
+// methods the value's type offers and what they return (a static table: the
+// driver's declared oracle, independent of the library's type switch).
+func otherCaps(which string) (caps []interface{}, strv, gov, errv string) {
+	caps = []interface{}{}
+	switch which {
+	case "strhidden":
+		return []interface{}{"String"}, "shown text", "", ""
+	case "strhiddenempty":
+		return []interface{}{"String"}, "", "", ""
+	case "error":
+		return []interface{}{"Error"}, "", "", "plain error"
+	}
+	return caps, "", "", ""
+}
+
 func augmentItem(d M, x interface{}) {
 	tx := M{}
+	if d["k"] == "other" {
+		caps, strv, gov, errv := otherCaps(opStr(d, "which"))
+		d["caps"], d["strv"], d["gov"], d["errv"], d["h"], d["w"] = caps, strv, gov, errv, 0, 0
+		for _, c := range []string{"strv", "gov", "errv"} {
+			tx[c] = linesWidths(opStr(d, c))
+		}
+	}
 	switch d["k"] {
 	case "str", "rune":
 		tx["s"] = linesWidths(opStr(d, "s"))
